@@ -25,8 +25,8 @@ CHECKS = {
    design="4/C12"),
  "C13": dict(
    technique="Lean 4 proof (constant face flux and discrete log profile of the steady 1D system, wall closed forms, non-expansiveness of the transient step towards a steady state) + correspondence + exhaustive pairing sweep on real solves",
-   text="Theorems: steady_flux_constant, steady_profile (T_i = T_1 + Phi * sum 1/r_{m+1/2}, the midpoint-rule image of the logarithmic profile), steady_fixed_fixed, steady_flux_outer, steady_conv_inner, transient_nonexpansive. Tied to srlife by the captured-system correspondence in steady and transient mode including consistency of the solver's Jacobian with its residual for every wall kind; all 20 inner x outer kind pairings are run on the real solver (accepted on their wall), the 16 well-posed ones against the exact logarithmic profile at two resolutions (observed order >= 1.8, second order for fixed/fixed), and long transients against the steady-mode solution.",
-   note="Trusted: Lean kernel + Mathlib; harness; the O(dr^2)/O(dr) closeness of the discrete profile to ln r is measured on real solves, not proved (stated as stretch in DESIGN).",
+   text="Theorems: steady_flux_constant, steady_profile (T_i = T_1 + Phi * sum 1/r_{m+1/2}), midpoint_log and profile_vs_log (that sum times dr is within O(dr^2) of ln(r_i/r_1), via Mathlib's log series bound), steady_fixed_fixed, steady_flux_outer, steady_conv_inner, transient_nonexpansive. Tied to srlife by the captured-system correspondence in steady and transient mode including consistency of the solver's Jacobian with its residual for every wall kind; all 20 inner x outer kind pairings are run on the real solver (accepted on their wall), the 16 well-posed ones against the exact logarithmic profile at two resolutions (observed order >= 1.8, second order for fixed/fixed), and long transients against the steady-mode solution.",
+   note="Trusted: Lean kernel + Mathlib; harness; midpoint_log/profile_vs_log prove the O(dr^2) closeness of the discrete profile sum to ln r for the same face flux; the O(dr) effect of the dr/2 wall-radius offset on flux/convective walls is measured on real solves (order >= 1.8 checked).",
    design="4/C13"),
  "C17": dict(
    technique="Lean 4 proof (induction on the iteration budget for five loop models, all miter >= 0, all oracle sequences incl. NaN/inf) + translator regenerating the parameter-plumbing terms from the sources each run (obligations by reflection) + exact scripted-oracle correspondence of every real loop",
